@@ -504,6 +504,15 @@ func (w *world) apply(op *Op, ev map[string]interface{}) {
 		st.AddStakingRecord(w.addr(op.A), w.vals[op.V].Addr, txHash(op.H), val)
 	case "AddRel":
 		st.AddPendingRelationship(w.addr(op.A), w.vals[op.V].Addr)
+	case "ResetStaking":
+		// core.ResetStakingTrieOnNewPeriod: the same object is carried over a staking-period boundary
+		st.ResetStakingTrie()
+	case "ReadRecord":
+		// a read: loads the record into the object's cache
+		if r := st.GetStakingRecord(w.addr(op.A), w.vals[op.V].Addr); r != nil {
+			ev["got"] = len(r.TxHashes)
+		}
+		st.PendingValidatorExist(w.vals[op.V].Addr)
 	case "Finalise":
 		st.Finalise(true)
 	case "Root":
@@ -624,6 +633,9 @@ func (w *world) apply(op *Op, ev map[string]interface{}) {
 			panic(err)
 		}
 		ev["dereferenced"] = n
+		if len(w.commits) > 0 {
+			w.commits = w.commits[len(w.commits)-1:] // the collected roots can no longer be reopened
+		}
 	case "Restart":
 		w.db = state.NewDatabase(w.disk)
 		re, err := state.New(w.flushed[0], w.flushed[1], w.flushed[2], w.db)
